@@ -13,11 +13,12 @@ Record seen := mkSeen {
 
 (* a connection given by reference into the history's tables of specs and servers (keeps the case terms small) *)
 Record cref := mkRef {
-  r_sp : nat; r_sv : nat; r_sname : N; r_addr : N; r_now : N; r_omit : bool; r_skip : bool; r_suite : N; r_tlen : N
+  r_sp : nat; r_sv : nat; r_sname : N; r_addr : N; r_now : N; r_omit : bool; r_skip : bool; r_suite : N; r_tlen : N;
+  r_vname : N; r_skiptime : bool
 }.
 Definition resolve (sps : list spec) (svs : list server) (r : cref) : conn :=
   mkConn (nth (r_sp r) sps (mkSpec false [] [] [] [] [])) (r_sname r) (r_addr r)
-         (nth (r_sv r) svs (mkServer 0 [] [] [] 0 [])) (r_now r) (r_omit r) (r_skip r) (r_suite r) (r_tlen r).
+         (nth (r_sv r) svs (mkServer 0 [] [] [] 0 [])) (r_now r) (r_omit r) (r_skip r) (r_suite r) (r_tlen r) (r_vname r) (r_skiptime r).
 
 Inductive case :=
 | CHist (h : list (conn * seen))
